@@ -111,6 +111,7 @@ type world struct {
 	tname string
 	sname string
 	sink  *eventSink
+	cmu   sync.Mutex // pipe() is called from several goroutines in the concurrent scenarios
 	conns []net.Conn
 }
 
@@ -145,7 +146,9 @@ func newWorld(cfg worldCfg) *world {
 func (w *world) pipe() net.Conn {
 	c, s := net.Pipe()
 	go w.svr.VerifServe(s)
+	w.cmu.Lock()
 	w.conns = append(w.conns, c)
+	w.cmu.Unlock()
 	return c
 }
 
@@ -154,7 +157,10 @@ func (w *world) serveConn(s net.Conn) { go w.svr.VerifServe(s) }
 
 // shutdown closes every client-side connection, the server and the providers.
 func (w *world) shutdown() {
-	for _, c := range w.conns {
+	w.cmu.Lock()
+	cs := append([]net.Conn{}, w.conns...)
+	w.cmu.Unlock()
+	for _, c := range cs {
 		c.Close()
 	}
 	func() {
